@@ -105,8 +105,8 @@ PROPS = {
         "assumptions": ["IsEqual across forms is compared on the implementation only until the equality model (C05) is merged; Defrag across forms is covered by C19"],
     },
     "C13": {
-        "lean": ["Stackage.Props.C13"],
-        "streams": [{"name": "nest", "quick": 3000, "thorough": 60000}],
+        "lean": ["Stackage.Props.C13", "Stackage.Props.C06"],
+        "streams": [{"name": "nest", "quick": 3000, "thorough": 60000}, {"name": "condhist", "quick": 2000, "thorough": 40000}],
         "rule": "push batches mixing stacks, aliases (with/without String), pointers to aliases, zero-valued instances, Conditions, nil and primitives, "
                 "interleaved with switching no-nesting on/off, on every kind; content, CanNest and IsNesting compared after every step",
         "modelled": COMMON_MODELLED,
@@ -382,7 +382,14 @@ PROJ = {
 }
 
 
+def _c13_cond(out):
+    # the Condition part of C13: expression, CanNest, IsNesting
+    return " ; ".join(" ".join(t for t in st.split(" ") if t[:1] in "XNG") for st in out.split(" ; "))
+
+
 def projection(pid, stream):
+    if pid == "C13" and stream == "condhist":
+        return _c13_cond
     return PROJ.get(pid, lambda s: s)
 
 
